@@ -35,9 +35,9 @@ type c17cfg struct {
 	removeHost        bool // a thread removes a host (as a refresh would) while others query
 	dialFault         bool
 	closeDelay        time.Duration // the closers first let this much virtual time pass (e.g. the event debounce interval: Close lands on the flush)
-	lateClose         bool // the closers first let 1ms of virtual time pass (Close lands wherever timer deviations put it)
-	upTwice           bool // a host without a pool (reported down) is brought back by two concurrent triggers (UP event and reconnect tick)
-	refill3           bool // two of three connections are lost; the replacing handshakes may be dropped or slow (free choices) while queries keep arriving
+	lateClose         bool          // the closers first let 1ms of virtual time pass (Close lands wherever timer deviations put it)
+	upTwice           bool          // a host without a pool (reported down) is brought back by two concurrent triggers (UP event and reconnect tick)
+	refill3           bool          // two of three connections are lost; the replacing handshakes may be dropped or slow (free choices) while queries keep arriving
 	closeErr          bool
 	fates             []string
 	t                 [2]int
@@ -327,6 +327,33 @@ func (c *c17cfg) body() {
 	vs.Observe("%s maxpool=%d", strings.Join(sig, " "), maxPool)
 }
 
+// debouncerStopBody: Session.Close stops the event debouncers; stop() must return and the flusher goroutine must exit
+// also when it lands on the instant a batch is flushed while another event arrives.
+func debouncerStopBody() {
+	gocql.VerifResetGlobals()
+	d := gocql.VerifNewEventDebouncer(func(tags []string) {})
+	done := make(chan struct{}, 2)
+	vs.GoNamed("arrivals", func() {
+		d.Debounce("e1")
+		vs.Sleep(time.Second) // the debounce period
+		d.Debounce("e2")
+		vs.Send(done, struct{}{})
+	})
+	vs.GoNamed("closer", func() {
+		vs.Sleep(time.Second)
+		d.Stop()
+		vs.Send(done, struct{}{})
+	})
+	vs.Recv[struct{}](done)
+	vs.Recv[struct{}](done)
+	vs.WaitQuiescent()
+	for _, t := range vs.LiveThreads() {
+		if strings.Contains(t, "@gocql.") {
+			vs.Failf("c17:goroutine-alive-after-close:eventDebouncer", "the debouncer's goroutine is still alive after stop() returned and quiescence: %s", t)
+		}
+	}
+}
+
 func (c *c17cfg) build() *vs.Scenario {
 	return &vs.Scenario{Name: c.name, Cfg: vs.Config{MaxSteps: 100000, Horizon: 60 * time.Second, DelayBounded: true}, Body: c.body}
 }
@@ -361,8 +388,13 @@ func main() {
 		b := func(t int) vs.Bounds { return vs.Bounds{P: t, D: t, F: t, T: t} }
 		defs = append(defs, mcreport.Def{Name: c.name, Build: c.build, Quick: b(c.t[0]), Thorough: b(c.t[1])})
 	}
+	// the event debouncer alone: stop() arriving at the instant of a flush, with another event (every interleaving up to P4 D2)
+	defs = append(defs, mcreport.Def{Name: "event-debouncer-stop-at-the-flush-instant",
+		Build: func() *vs.Scenario {
+			return &vs.Scenario{Name: "event-debouncer-stop-at-the-flush-instant", Cfg: vs.Config{MaxSteps: 20000, Horizon: 10 * time.Second}, Body: debouncerStopBody}
+		}, Quick: vs.Bounds{P: 3, D: 2}, Thorough: vs.Bounds{P: 5, D: 3}})
 	mcreport.Main("C17", "model_checking",
-		"delay-bounded exhaustive exploration (total deviations <= T) of ten pool / close scenarios on a real Session over scripted nodes: concurrent Pick-triggered fills, connections dropped by the node, dial failures, a transport whose Close fails, host removal racing queries, Session.Close racing queries, a second Close, a ring refresh, a control-connection reconnect, and Close immediately after NewSession",
+		"delay-bounded exhaustive exploration (total deviations <= T) of the pool / close scenarios listed in the evidence on a real Session over scripted nodes: concurrent Pick-triggered fills, connections dropped by the node, dial failures, a transport whose Close fails, host removal racing queries, Session.Close racing queries, a second Close, a ring refresh, a control-connection reconnect, and Close immediately after NewSession",
 		[]string{"1-2 hosts, pool size 1-3, 1-2 callers, 1-2 closers; horizon 60s of virtual time (heartbeats and debounce timers run); ReconnectInterval 0",
 			"data races proper are looked for by the separate free-running -race pass; here shared-state errors show up through the oracles (pool bound, closed connections in pools, open transports, live goroutines, Close not returning = deadlock report)"},
 		defs, 80*time.Second, 25*time.Minute, nil)
